@@ -93,3 +93,47 @@ func verifIntroduced(s *Scorch, kind string, pre, post *IndexSnapshot, batchIDs 
 	}
 	f(s, ev)
 }
+
+// Durable-state instrumentation: every step that changes what is on disk (segment
+// files written, a root.bolt transaction committed, an epoch or a file removed) is
+// reported, and named crash points let the harness kill the process exactly there.
+
+var (
+	verifDurableHook func(s *Scorch, kind string, epoch uint64, names []string)
+	verifCrashHook   func(s *Scorch, name string)
+)
+
+// VerifSetDurableHook registers the durable-event callback (nil to remove it).
+func VerifSetDurableHook(f func(s *Scorch, kind string, epoch uint64, names []string)) {
+	verifHookLock.Lock()
+	verifDurableHook = f
+	verifHookLock.Unlock()
+}
+
+// VerifSetCrashHook registers the crash-point callback (nil to remove it).
+func VerifSetCrashHook(f func(s *Scorch, name string)) {
+	verifHookLock.Lock()
+	verifCrashHook = f
+	verifHookLock.Unlock()
+}
+
+func verifDurable(s *Scorch, kind string, epoch uint64, names []string) {
+	verifHookLock.Lock()
+	f := verifDurableHook
+	verifHookLock.Unlock()
+	if f != nil {
+		f(s, kind, epoch, append([]string(nil), names...))
+	}
+}
+
+func verifCrashPoint(s *Scorch, name string) {
+	verifHookLock.Lock()
+	f := verifCrashHook
+	verifHookLock.Unlock()
+	if f != nil {
+		f(s, name)
+	}
+}
+
+// VerifPath is the directory of the index ("" for an in-memory index).
+func (s *Scorch) VerifPath() string { return s.path }
